@@ -7,7 +7,7 @@ from harness.interp_gen import Gen, gate_inspect
 
 PROP = 'C03'
 LEAN_MODULES = ['Glom.Props.C03']
-FACT_FILES = ['ExcFacts']
+FACT_FILES = ['ExcFacts', 'InterpFacts', 'c03']
 READY = True
 MANIFEST = dict(
     text=("Lean 4 theorems over the code-shaped loops of the interpreter model (_handle_dict, _handle_list, _handle_tuple, "
@@ -30,6 +30,10 @@ MANIFEST = dict(
           "tied to /repo by differential execution (result + ordered call log) through the compiled Lean driver, and the "
           "composition law itself is re-evaluated on the real glom (top-level tuple/dict/list specs recomputed from separate "
           "glom calls on their sub-specs)."),
+    checker=("holds = checkC03 (independent: the observed outcome and call log of the whole spec equal the ones recomputed by composeRef -- "
+             "feed forward / SKIP / STOP / same keys and type / iteration order / value before a computed key / Coalesce's first non-skipped "
+             "success, an exception of alternative or skip predicate passed over iff in skip_exc -- from separately observed leaf outcomes; "
+             "c03_model_checks) AND equality with the code-shaped model (for the leaves: Call, Invoke, T, paths, ...)"),
     note=("trusted: Lean kernel + {propext, Classical.choice, Quot.sound}; harness/driver; Python primitives as Prims parameters; "
           "hand-written interpreter model validated by the correspondence on every run. Inspect(recursive=True) with callbacks "
           "is not modelled (the tracer it installs is called for every nested evaluation); what Inspect echoes is not observed."),
@@ -51,7 +55,15 @@ RULE = ('type-directed: a random JSON-like target; a spec tree of depth <= 3 (qu
         'GlomError, ValueError, CoalesceError, yields None / 0 / a value) followed by a logged later alternative, x where the '
         'Coalesce stands (whole spec, dict value, tuple step, list element); 25% of the random Coalesces draw such a boundary. '
         'Inspect(spec, echo, recursive, breakpoint=f, post_mortem=g) wraps random sub-specs (callbacks are instrumented callables; '
-        'recursive=True without callbacks only). Every '
+        'recursive=True without callbacks only). 3% of the cases put ONE bare Ref(name) object -- inside a reused fragment such as '
+        '("next", Ref("fmt")) or ("children", [Ref("tree")]) -- under two or three different Ref(name, body) definitions: in one dict / '
+        'tuple spec, as Call arguments, or in consecutive calls of one process (`before`: specs evaluated earlier from the same objects). '
+        'Further shapes: list specs with more than one element (only the first is the sub-spec), Coalesce skip predicates that raise '
+        '(with and without a matching skip_exc), Call with an EFFECTFUL func spec and effectful argument specs (order func, args, kwargs in '
+        'the call log), a class as callee of Call / Invoke, a non-str keyword in Call kwargs. OBSERVATION for the independent checker: for '
+        'every spec that is a composition (tuple / Pipe / dict / list / Val / Spec / Auto / Coalesce at any depth) of scope-free sub-specs, the '
+        'harness evaluates every LEAF by a separate top-level glom call on the target it receives and hands (position, target, outcome, '
+        'call log) to the Lean checker checkC03, which recomputes the composite by the rules of the property text. Every '
         'callable is an instrumented catalogue function with a unique name, so the ordered call log is observed. '
         'non-trivial = spec has >= 3 nodes; distinct = distinct (target, spec)')
 TRUSTED = ['Python primitives (==, truthiness, hashing, iteration, int(), the catalogue callables) are parameters of the '
@@ -59,6 +71,11 @@ TRUSTED = ['Python primitives (==, truthiness, hashing, iteration, int(), the ca
            'correspondence only']
 ASSUMPTIONS = ['what Inspect echoes to stdout is not observed; Inspect(recursive=True) with callbacks is not modelled',
                'T-expressions inside specs carry literal arguments only (C02 covers T)',
+               'READING (C03-3): a container object referenced twice in one argument-position container is evaluated once by glom '
+               '(the id() memo of _ArgValuator); the tree-shaped Spec type cannot express that sharing (the heap reference `rebuild` of C08 does); '
+               'subclass instances of dict as AUTO specs (defaultdict, Counter) are handled by isinstance (fact ifAuto) but not generated',
+               'Inspect is outside the 20 properties (lead): a recursive Inspect\'s tracer also stays installed for the later steps of an '
+               'enclosing chain (4 breakpoint calls instead of 2 for (Inspect("a", recursive=True, breakpoint=bp), "b")): gate kept',
                'the iteration of a target is a parameter of the theorems (Prims.iterate): which handler the registry resolves, also '
                'after a registration between two evaluations, is C13 / C06']
 
@@ -73,6 +90,12 @@ def generate(rng, tier, scale, **focus):
         t = g.target()
         depth = rng.choice([1, 2, 2, 3]) if tier == 'quick' else rng.choice([2, 3, 3, 4])
         q = rng.random()
+        if q < 0.03:
+            # one bare Ref object (in a reused fragment) under several Ref(name, body) definitions, in one
+            # spec or across consecutive calls of this process
+            spec, shared, before, t = g.sharedref_case()
+            yield {'spec': spec, 'target': ic.enc(t), 'scope': [], 'shared': shared, 'before': before}
+            continue
         if q < 0.07:
             # containers with T leaves in argument position (Call args / kwargs, Coalesce default, ..) evaluated
             # once per record of a list of distinct records: each evaluation uses the current target
@@ -108,55 +131,158 @@ def has_kind(j, kinds):
     return False
 
 
-def compose(case):
-    """recompute a top-level tuple / Pipe / dict / list spec from separate glom calls on its sub-specs"""
+SCOPE_KINDS = ('sRead', 'sGlobRead', 'sVarRead', 'sBind', 'aBind', 'aGlob', 'aVar', 'let', 'ref', 'vars', 'iter', 'probe', 'rprobe')
+
+
+def scope_free(j):
+    """mirror of `scopeFreeF` (Glom/Spec/C03.lean): nothing that reads or writes the scope, no lazy stream"""
+    if isinstance(j, dict):
+        if j.get('k') in SCOPE_KINDS:
+            return False
+        if j.get('k') == 'specW' and j.get('scope'):
+            return False
+        return all(scope_free(v) for v in j.values())
+    if isinstance(j, list):
+        return all(scope_free(v) for v in j)
+    return True
+
+
+COMPOSED = ('tuple', 'pipe', 'dict', 'odict', 'list', 'val', 'specW', 'auto', 'coalesce')
+
+
+def is_composed(j):
+    k = j['k']
+    return k in COMPOSED and not (k == 'list' and not j['xs']) and not (k == 'specW' and j['scope'])
+
+
+class _Stop(Exception):
+    pass
+
+
+def observe_leaves(case):
+    """SEPARATE top-level glom calls on the leaves of the spec tree -- the sub-specs that are not themselves a
+    tuple / Pipe / dict / list / Val / Spec / Coalesce -- at every nesting level, each on the target it receives
+    when the containers above it are composed by the rules of the property text (feed forward, SKIP / STOP, same
+    keys, iteration order, Coalesce's first non-skipped success).  Only the leaf observations are handed to the
+    Lean checker (`checkC03`), which recomputes the composite from them on its own: positions are paths in the
+    spec tree (chain step i -> [i]; list sub-spec -> [0]; dict entry i -> [i, 1] for the value, [i, 0] for a
+    computed key; Spec(s) -> [0]; Coalesce alternative i -> [i], its skip predicate -> [1000], default -> [2000],
+    default_factory -> [2001]).  Returns None when a leaf's target or outcome cannot be encoded."""
     import glom
-    from collections import OrderedDict
     spec = case['spec']
-    k = spec['k']
-    if k not in ('tuple', 'pipe', 'dict', 'odict', 'list') or has_kind(spec, ('ref', 'sRead', 'sGlobRead', 'sVarRead')):
-        return None
     fns = {}
-    target = ic.dec(case['target'], fns)
-    del ic.LOG[:]
-    try:
+    leaves = []
+
+    def leaf(pos, j, target):
+        del ic.LOG[:]
+        try:
+            tj = ic.enc(target)
+        except ValueError:
+            raise _Stop('unencodable intermediate target')
+        res = None
+        try:
+            res = glom.glom(target, ic.build(j, fns))
+            out = {'ok': ic.enc(res)}
+        except ValueError as ve:
+            if str(ve).startswith('cannot encode'):
+                raise _Stop('unencodable leaf result')
+            out = {'err': ic.exc_name(ve)}
+        except Exception as e:
+            out = {'err': ic.exc_name(e)}
+        leaves.append({'pos': pos, 'spec': j, 'target': tj, 'res': out, 'log': list(ic.LOG)})
+        del ic.LOG[:]
+        if 'err' in out:
+            raise _Err(out['err'])
+        return res
+
+    class _Err(Exception):
+        pass
+
+    def caught(classes, name):
+        e = ic.exc_class(name)
+        return any(issubclass(e, ic.exc_class(c)) for c in classes)
+
+    def ev(j, target, pos):
+        k = j['k']
+        if not is_composed(j):
+            return leaf(pos, j, target)
         if k in ('tuple', 'pipe'):
             res = target
-            for st in spec['xs']:
-                nxt = glom.glom(res, ic.build(st, fns))
+            for i, st in enumerate(j['xs']):
+                nxt = ev(st, res, pos + [i])
                 if nxt is glom.SKIP:
                     continue
                 if nxt is glom.STOP:
                     break
                 res = nxt
-        elif k == 'list':
-            if not spec['xs']:
-                return None
-            sub = ic.build(spec['xs'][0], fns)
-            res = []
-            for item in glom.glom(target, glom.Iter().all()) if not isinstance(target, (list, tuple)) else target:
-                v = glom.glom(item, sub)
+            return res
+        if k == 'list':
+            try:
+                items = list(target) if isinstance(target, (list, tuple)) else list(glom.glom(target, glom.Iter().all()))
+            except Exception as e:
+                raise _Err(ic.exc_name(e))
+            out = []
+            for item in items:
+                v = ev(j['xs'][0], item, pos + [0])
                 if v is glom.SKIP:
                     continue
                 if v is glom.STOP:
                     break
-                res.append(v)
-        else:
-            res = OrderedDict() if k == 'odict' else {}
-            for kj, vj in spec['es']:
-                v = glom.glom(target, ic.build(vj, fns))
+                out.append(v)
+            return out
+        if k in ('dict', 'odict'):
+            from collections import OrderedDict
+            out = OrderedDict() if k == 'odict' else {}
+            for i, (kj, vj) in enumerate(j['es']):
+                v = ev(vj, target, pos + [i, 1])
                 if v is glom.SKIP:
                     continue
-                key_ = ic.build(kj, fns)
-                if kj['k'] in ('t', 'specW'):
-                    key_ = glom.glom(target, key_)
-                res[key_] = v
-        out = {'ok': ic.enc(res)}
-    except Exception as e:
-        out = {'err': ic.exc_name(e)}
-    log = list(ic.LOG)
-    del ic.LOG[:]
-    return out, log
+                if kj['k'] in ('t', 'specW', 'sRead'):
+                    key_ = ev(kj, target, pos + [i, 0])
+                    hash(key_)
+                else:
+                    key_ = ic.build(kj, fns)
+                out[key_] = v
+            return out
+        if k == 'val':
+            return ic.dec(j['v'], fns)
+        if k in ('specW', 'auto'):
+            return ev(j['s'], target, pos + [0])
+        # Coalesce
+        for i, sub in enumerate(j['subs']):
+            try:
+                v = ev(sub, target, pos + [i])
+                sk = j.get('skip')
+                if sk is None:
+                    skipped = False
+                elif sk['k'] == 'pred':
+                    skipped = bool(leaf(pos + [1000], {'k': 'fn', 'name': sk['name'], 'kind': sk['kind']}, v))
+                elif sk['k'] == 'anyOf':
+                    skipped = v in tuple(ic.dec(x, fns) for x in sk['vs'])
+                else:
+                    skipped = (v == ic.dec(sk['v'], fns))
+                if not skipped:
+                    return v
+            except _Err as e:
+                if not caught(j['skip_exc'], str(e)):
+                    raise
+        if j.get('dflt') is not None:
+            return leaf(pos + [2000], {'k': 'coalesce', 'subs': [], 'dflt': j['dflt'], 'dflt_factory': None, 'skip': None,
+                                       'skip_exc': ['GlomError']}, target)
+        if j.get('dflt_factory') is not None:
+            return leaf(pos + [2001], {'k': 'invoke', 'func': {'k': 'fn', 'name': j['dflt_factory'][0], 'kind': j['dflt_factory'][1]},
+                                       'func_is_spec': False, 'blocks': []}, target)
+        raise _Err('CoalesceError')
+
+    try:
+        ev(spec, ic.dec(case['target'], fns), [])
+    except _Stop as e:
+        return None, str(e)
+    except (_Err, TypeError):
+        pass                       # the composite raises: the leaves observed so far are all it needs
+    finally:
+        del ic.LOG[:]
+    return leaves, ''
 
 
 def run_impl(case):
@@ -165,22 +291,25 @@ def run_impl(case):
     base = {k: v for k, v in case.items() if not k.startswith('impl')}
     out = ic.run_glom(base)
     out.pop('_built', None)
-    try:
+    # separately observed leaf outcomes (an exception raised by the harness itself is a harness error)
+    if scope_free(base['spec']) and is_composed(base['spec']):
         with contextlib.redirect_stdout(io.StringIO()):
-            comp = compose(base)
-    except Exception:
-        comp = None
-    if comp is None:
-        out['impl_compose_ok'] = True
+            leaves, why = observe_leaves(base)
+        out['impl_leaves'] = leaves
+        if leaves is None:
+            out['impl_leaves_why'] = why
     else:
-        out['impl_compose_ok'] = (comp[0] == out['impl'] and comp[1] == out['impl_log'])
-        if not out['impl_compose_ok']:
-            out['impl_compose'] = {'res': comp[0], 'log': comp[1]}
+        out['impl_leaves'] = None
+        out['impl_leaves_why'] = 'not a composition of separately observable sub-specs'
     return out
 
 
 def key(case):
-    return {'spec': case['spec'], 'target': case['target'], 'scope': case.get('scope')}
+    k = {'spec': case['spec'], 'target': case['target'], 'scope': case.get('scope')}
+    for f in ('shared', 'before', 'scope_layers'):
+        if case.get(f):
+            k[f] = case[f]
+    return k
 
 
 def size(j):
